@@ -38,7 +38,7 @@ def load_property(pid: str):
 # deductive worker (one contract per task; z3 terms never cross process boundaries)
 # --------------------------------------------------------------------------------------------------
 def _deductive_task(arg) -> dict:
-    pid, idx, tier = arg
+    pid, idx, tier, scen, shard, nshards = arg
     t0 = time.time()
     try:
         from pyvc.contracts import generate
@@ -47,28 +47,30 @@ def _deductive_task(arg) -> dict:
         prop = load_property(pid)
         contract = prop.contracts[idx]
         budget = 5000 if tier == 'quick' else 30000
-        rep = generate(contract)
+        rep = generate(contract, scenarios=[scen])
         known = [k for k in load_known() if k.get('status') == 'open' and k.get('kind', 'deductive') == 'deductive'
                  and pid in k.get('properties', [k.get('property')])]
         obs = []
-        for ob in rep.obligations:
-            if pid not in ob.props:
+        mine = [ob for ob in rep.obligations if pid in ob.props]
+        for k, ob in enumerate(mine):
+            if k % nshards != shard:
                 continue
             inputs = getattr(ob, 'inputs', None)
-            discharge(ob, budget_ms=budget, inputs=inputs, want_smt2=(tier == 'thorough'))
-            if ob.status == 'undecided' and 'timeout' in ob.backend or (ob.status == 'undecided' and ob.seconds * 1000 >= budget):
+            regions = []
+            for k in known:
+                if k['obligation'] in ob.name and k.get('contract', contract.qualname) == contract.qualname:
+                    rfun = getattr(contract, 'regions', {}).get(k['region'])
+                    if rfun is not None:
+                        regions.append((k, rfun))
+            # obligations with a listed finding: one e-matching attempt as stated, then the carve-out (DESIGN 8.2)
+            discharge(ob, budget_ms=budget, inputs=inputs, want_smt2=(tier == 'thorough'), try_mbqi=not regions)
+            if ob.status == 'undecided' and not regions and ob.seconds * 1000 >= budget * 0.9:
                 discharge(ob, budget_ms=budget * 10, inputs=inputs)   # one retry with 10x budget (DESIGN 9.5)
             d = {'name': ob.name, 'kind': ob.kind, 'scenario': ob.scenario, 'path': list(ob.path), 'status': ob.status,
                  'backend': ob.backend, 'seconds': round(ob.seconds, 3), 'model': ob.model, 'line': ob.line,
                  'model_values': getattr(ob, 'model_values', None), 'known': None, 'smt2_sha': None}
             if ob.status != 'discharged':
                 # known-findings protocol (DESIGN 8.2): re-prove under "input not in any listed region"
-                regions = []
-                for k in known:
-                    if k['obligation'] in ob.name and k.get('contract', contract.qualname) == contract.qualname:
-                        rfun = getattr(contract, 'regions', {}).get(k['region'])
-                        if rfun is not None:
-                            regions.append((k, rfun))
                 if regions and inputs is not None:
                     carve = [z3.Not(rf(inputs, ob)) for _, rf in regions]
                     from pyvc.ctx import Obligation
@@ -87,12 +89,12 @@ def _deductive_task(arg) -> dict:
                 if ob.kind in ('ensures', 'raises', 'frame', 'lemma') and idx >= 0:
                     d['cross'] = cross_check(ob, timeout_s=20)
             obs.append(d)
-        return {'contract': contract.qualname, 'sha256': rep.sha256, 'paths': rep.paths, 'obligations': obs,
+        return {'contract': contract.qualname, 'scenario': scen, 'shard': shard, 'sha256': rep.sha256, 'paths': rep.paths, 'obligations': obs,
                 'out_of_subset': rep.out_of_subset, 'assumptions': sorted(rep.assumptions), 'covers': sorted(rep.covers),
                 'outcomes': rep.outcomes, 'gen_seconds': round(rep.seconds, 2), 'seconds': round(time.time() - t0, 2),
                 'error': None, 'scenarios': list(rep.scenarios)}
     except Exception as ex:  # noqa: BLE001
-        return {'contract': f'{pid}#{idx}', 'error': f'{type(ex).__name__}: {ex}\n{traceback.format_exc()}', 'obligations': [],
+        return {'contract': f'{pid}#{idx}', 'scenario': scen, 'shard': shard, 'error': f'{type(ex).__name__}: {ex}\n{traceback.format_exc()}', 'obligations': [],
                 'out_of_subset': [], 'assumptions': [], 'covers': [], 'outcomes': {}, 'paths': 0, 'sha256': '', 'seconds': 0,
                 'gen_seconds': 0, 'scenarios': []}
 
@@ -112,6 +114,36 @@ def _bounded_task(arg) -> dict:
         return {'name': f'{pid}#bounded{idx}', 'error': f'{type(ex).__name__}: {ex}\n{traceback.format_exc()}',
                 'evaluations': 0, 'distinct_nontrivial': 0, 'violations': 0, 'violation_list': [], 'covers': {},
                 'required_covers': [], 'samples': [], 'bound': '', 'seconds': 0}
+
+
+def merge_shards(results: List[dict]) -> List[dict]:
+    """One record per contract: union over scenarios and shards."""
+    by: Dict[str, dict] = {}
+    for r in results:
+        k = r['contract']
+        if k not in by:
+            by[k] = dict(r, scenarios=[], obligations=[], out_of_subset=[], assumptions=set(), covers=set(), outcomes={},
+                         paths=0, seconds=0.0, gen_seconds=0.0)
+            by[k].pop('scenario', None)
+            by[k].pop('shard', None)
+        m = by[k]
+        m['obligations'] += r['obligations']
+        m['assumptions'] |= set(r['assumptions'])
+        m['covers'] |= set(r['covers'])
+        m['seconds'] += r['seconds']
+        if r.get('error'):
+            m['error'] = r['error']
+        if r.get('shard', 0) == 0:
+            m['paths'] += r['paths']
+            m['gen_seconds'] += r['gen_seconds']
+            m['outcomes'].update(r['outcomes'])
+            m['out_of_subset'] += r['out_of_subset']
+            if r.get('scenario') is not None:
+                m['scenarios'].append(r['scenario'])
+    for m in by.values():
+        m['assumptions'] = sorted(m['assumptions'])
+        m['covers'] = sorted(m['covers'])
+    return list(by.values())
 
 
 # --------------------------------------------------------------------------------------------------
@@ -165,7 +197,12 @@ def main(argv=None) -> int:
         traceback.print_exc()
         return 3
     known = load_known()
-    tasks_d = [(pid, i, args.tier) for i in range(len(prop.contracts))]
+    tasks_d = []
+    for i, c in enumerate(prop.contracts):
+        for scen in c.scenarios():
+            k = getattr(c, 'shards', {}).get(scen, 1)
+            for sh in range(k):
+                tasks_d.append((pid, i, args.tier, scen, sh, k))
     tasks_b = [] if args.no_bounded else [(pid, i, args.tier, seed) for i in range(len(prop.bounded))]
     ctxm = mp.get_context('fork')
     with ctxm.Pool(min(args.jobs, max(1, len(tasks_d) + len(tasks_b)))) as pool:
@@ -174,6 +211,7 @@ def main(argv=None) -> int:
         ded = rd.get()
         bnd = rb.get()
 
+    ded = merge_shards(ded)
     exit_code = 0
     lines: List[str] = []
     violations: List[Tuple[str, str]] = []
@@ -218,6 +256,10 @@ def main(argv=None) -> int:
     # bounded violations: match against known findings by signature
     bounded_known = [k for k in known if k.get('status') == 'open' and k.get('kind') == 'bounded'
                      and pid in k.get('properties', [k.get('property')])]
+    # findings of OTHER properties that a shared bounded check observes incidentally: reported by their own checks only
+    foreign = {k['sig'] for k in known if k.get('status') == 'open' and k.get('kind') == 'bounded'
+               and pid not in k.get('properties', [k.get('property')])}
+    foreign_seen = set()
     new_bounded = []
     seen_sig = set()
     for r in bnd:
@@ -225,6 +267,9 @@ def main(argv=None) -> int:
             if v['sig'] in seen_sig:
                 continue
             seen_sig.add(v['sig'])
+            if v['sig'] in foreign:
+                foreign_seen.add(v['sig'])
+                continue
             hit = next((k for k in bounded_known if k['sig'] == v['sig']), None)
             if hit is not None:
                 if hit['id'] not in known_printed:
@@ -335,6 +380,7 @@ def main(argv=None) -> int:
         'rule': 'bounded layer: cases enumerated/sampled per check (bound stated per check); a case is non-trivial when it reaches the '
                 'guarded branch of the clause under test, distinct by canonical input; measured by the harness',
         'known_findings_printed': sorted(known_printed),
+        'findings_of_other_properties_observed': sorted(foreign_seen),
         'explanation': prop.explanation,
         'cross_checks': [{'name': o['name'], **o['cross']} for o in all_obs if o.get('cross')][:50],
     }
